@@ -608,3 +608,52 @@ Print Assumptions c04_signed_oracle_sizes_and_identity.
 Print Assumptions c04_signed_oracle_tc_shape.
 Print Assumptions c04_signed_oracle_omission.
 Print Assumptions c04_signed_oracle_tsig_set_aside.
+
+(* ---- the SIGNED TSIG record and the limit (pkg-sproof; Proofs/SignFinishP.v, SignSerP.v, SignTopP.v) ----
+   c04_tsig_within_limit: c04_tsig_within_limit_partial WITHOUT [unverified]: for every verifier and every hmac whose
+   output has the algorithm's output size (the only fact about HMAC used; Proofs/SignShapeP.v, SignLenP.v): whenever the response of the abstract server model
+   carries TSIG settings - unsigned (BADKEY / BADSIG / FORMERR) or SIGNING (BADTIME with 6 octets of other data;
+   verified and answered NOTIMP / REFUSED / SERVFAIL / FORMERR) - the extended composed model returns octets no
+   longer than the response's limit; the one remaining class (a verified request answered out of a Loaded zone) is
+   still the abstract response [RAbs wa] (Model/ServerWT.v: handle_query_t).  The record written is never larger
+   than the reservation signed_len = key name + algorithm name + 26 + output size (+ 6 for BADTIME) the pre-scan
+   subtracted from the available space, so no spurious TC and no overflow of the limit. *)
+From QV Require Import Proofs.SignTopP Proofs.SignLenP.
+From QV Require Model.TsigMsg.
+
+Theorem c04_tsig_within_limit : forall hmac zones negttl answer verify cfg buf req wa t,
+  (forall a k d, length (hmac a k d) = TsigMsg.output_size a) ->
+  ServerP.wf_cfg cfg -> length buf = Server.c_buflen cfg -> (Server.c_now cfg < 281474976710656)%N -> wf_bytes req ->
+  Server.handle_message answer verify cfg req = Ok (Some wa) -> Server.w_tsig wa = Some t ->
+  handle_message_wt hmac zones negttl answer verify cfg buf req = Ok (Some (RAbs wa)) \/
+  exists len b,
+    handle_message_wt hmac zones negttl answer verify cfg buf req = Ok (Some (ROctets len b)) /\
+    len <= Server.w_limit wa /\ ServerLimitP.lim_ok cfg req wa.
+Proof.
+  intros hmac zones negttl answer verify cfg buf req wa t Hl Hcfg Hbuf Hnow Hwf HA Et.
+  exact (tsig_response_limit_len hmac Hl zones negttl answer verify cfg buf Hcfg Hbuf Hnow req wa t Hwf HA Et).
+Qed.
+
+Print Assumptions c04_tsig_within_limit.
+
+(* Regression for the arithmetic finish_signed_ok2 / signed_steps pin down (the seeded defect "signed_len counts the
+   MAC size field twice", + 2): HMAC-SHA256, root key name, no question, BADTIME, limit 90 = 12 + 78: the real
+   reservation (output size 32 -> 78) lets the record in and the finished message is exactly 90 octets long; a
+   reservation 2 octets larger is refused - Truncation, i.e. a spurious TC for a response that fits. *)
+Example c04_signed_len_plus_two_refuted :
+  let hm := fun (a : TsigMsg.alg) (k d : bytes) => repeat 90%N (TsigMsg.output_size a) in
+  let alg : MsgWriter.wname := [[104;109;97;99;45;115;104;97;50;53;54]%N] in
+  let tm : bytes := [0;0;101;83;241;0]%N in
+  match MsgWriter.writer_new (repeat 0%N 90) 90 with
+  | Ok w =>
+    match set_tsig_signed 32 alg [] tm 300 7 18 tm w with
+    | Ok (_, w2) => match finish_signed hm TsigMsg.HmacSha256 [] [] w2 with Ok (len, _) => len = 90 | _ => False end
+    | _ => False
+    end /\
+    match set_tsig_signed 34 alg [] tm 300 7 18 tm w with
+    | Err (MsgWriter.Truncation, _) => True
+    | _ => False
+    end
+  | _ => False
+  end.
+Proof. vm_compute. auto. Qed.
